@@ -2,7 +2,7 @@
 reference counts are true, after every outer event of every history (direct
 operations, committed and aborted batches, no-op updates, restarts with
 regenerated counts, any lru-cache size)."""
-from ..core import Violation
+from ..core import Violation, deep
 from ..hgen import HistoryGen, make_pool, make_values, probe_keys
 from ..hworld import HWorld
 from ..core import hx
@@ -62,7 +62,7 @@ def generate(rng):
     probes = probe_keys(rng, pool, extra=2)
     cache = rng.choice([0, 1, 2, 8, 4096])
     g = HistoryGen(rng, pool, values, probes, batches=True, aborts=True, reopen=True, lookups=(0, 0))
-    cmds = g.history(rng.randint(10, 80))
+    cmds = g.history(rng.randint(10, deep(80, 200)))
     return {"prop": ID, "cfg": {"prune": True, "cache": cache}, "cmds": cmds}
 
 
